@@ -55,6 +55,7 @@ class DuctRecorder:
         self._saved = []
         self.clipped = 0
         self._own_htc = {}
+        self.p_truth = None
         # recorded sweeps: bypass film coefficients re-evaluated per region
         # (generated states set them directly and switch this off)
         self.use_own_htc = False
@@ -74,6 +75,11 @@ class DuctRecorder:
         o_sn = SN._calc_duct_temp
 
         def rr_calc(self, p_duct, t_gap, htc_gap, adiabatic=False):
+            # the heating the caller specifies: its own record if it keeps
+            # one (generated states), else the array as handed over
+            p_given = (rec.p_truth if rec.p_truth is not None else
+                       (None if p_duct is None
+                        else np.array(p_duct, dtype=float, copy=True)))
             pre = {k: np.array(v, copy=True) for k, v in self.temp.items()}
             avg_mw = np.array(self.avg_duct_mw_temp, copy=True)
             h_int = np.array(self.coolant_int_params['htc'], copy=True)
@@ -86,7 +92,7 @@ class DuctRecorder:
             try:
                 return o_rr(self, p_duct, t_gap, htc_gap, adiabatic)
             finally:
-                rec.rodded_event(self, pre, avg_mw, h_int, h_byp, p_duct,
+                rec.rodded_event(self, pre, avg_mw, h_int, h_byp, p_given,
                                  np.array(t_gap, copy=True),
                                  np.array(htc_gap, copy=True),
                                  rec.truth(adiabatic))
@@ -224,10 +230,27 @@ class DuctRecorder:
             mw = Tmw[j] - 0.5 * (Tsi[j] + Tso[j])
             mwx = qq * Lw * Lw / (8 * k_pre)
             mwtol = abs(qq) * Lw * Lw / 8 * abs(1 / k_post - 1 / k_pre)
-            out.append([self.qf(fin), self.qf(gen), self.qf(fout),
-                        self.qf(cin), self.qf(cout),
-                        q(mw, self.tscale), q(mwx, self.tscale),
-                        self.qf(ktol) + 1,
+            # fluxes beyond the scale of the projection (a solve that is off
+            # by orders of magnitude): this cell is quantised on a scale that
+            # holds them, so that TLC can still judge (and reject) it
+            big = max(abs(v) for v in (fin, gen, fout, cin, cout, ktol)
+                      if np.isfinite(v)) if any(
+                np.isfinite(v) for v in (fin, gen, fout, cin, cout)) else 0.0
+            sc_ = self.scale if big < 0.2 * self.scale else 8.0 * big
+            tsc = self.tscale
+            if np.isfinite(mw) and np.isfinite(mwx) and \
+                    max(abs(mw), abs(mwx)) >= 0.2 * tsc:
+                tsc = 8.0 * max(abs(mw), abs(mwx))
+
+            def qf_(x):
+                v = q(float(x), sc_)
+                if abs(v) >= QMAX:
+                    self.clipped += 1
+                return v
+            out.append([qf_(fin), qf_(gen), qf_(fout),
+                        qf_(cin), qf_(cout),
+                        q(mw, tsc), q(mwx, tsc),
+                        qf_(ktol) + 1,
                         [qT(ti), qT(Tsi[j]), qT(Tmw[j]), qT(Tso[j]),
                          qT(to)]])
         return out
